@@ -411,13 +411,14 @@ class ManifestFile:
                 if verify_openpgp:
                     openpgp_data += line
                 # skip header lines up to the empty line
+                # (they are skipped below, after checking for stray armor)
                 if line.strip():
                     if line.startswith('NotDashEscaped:'):
                         # GnuPG extension: the signed text is taken
                         # literally, '- ' prefixes are part of it
                         dash_escaped = False
-                    continue
-                state = ManifestState.SIGNED_DATA
+                else:
+                    state = ManifestState.SIGNED_DATA
             elif state == ManifestState.SIGNED_DATA:
                 if verify_openpgp:
                     openpgp_data += line
